@@ -134,13 +134,16 @@ func (s *Store) txnKVS(tx WriteTxn, idx uint64, op *structs.TxnKVOp) (structs.Tx
 }
 
 // txnSession handles all Session-related operations.
-func txnSession(tx WriteTxn, idx uint64, op *structs.TxnSessionOp) error {
+func (s *Store) txnSession(tx WriteTxn, idx uint64, op *structs.TxnSessionOp) error {
 	var err error
 
 	// enumcover:api.SessionOp
 	switch op.Verb {
 	case api.SessionDelete:
-		err = sessionDeleteWithSession(tx, &op.Session, idx)
+		// Destroy the session the same way SessionDestroy does, so that the
+		// locks it holds, its check links and its prepared queries are
+		// invalidated in this transaction as well.
+		err = s.deleteSessionTxn(tx, idx, op.Session.ID, &op.Session.EnterpriseMeta)
 	default:
 		return &UnsupportedFSMApplyPanicError{fmt.Errorf("unknown session verb %q", op.Verb)}
 	}
@@ -389,7 +392,7 @@ func (s *Store) txnDispatch(tx WriteTxn, idx uint64, ops structs.TxnOps) (struct
 		case op.Check != nil:
 			ret, err = s.txnCheck(tx, idx, op.Check)
 		case op.Session != nil:
-			err = txnSession(tx, idx, op.Session)
+			err = s.txnSession(tx, idx, op.Session)
 		case op.Intention != nil:
 			// NOTE: this branch is deprecated and exists for backwards
 			// compatibility with pre-1.9.0 raft logs and during upgrades.
